@@ -31,7 +31,7 @@ ASSUMPTIONS = [
     "method left/right: j = clip(bisect_<side>(sorted labels, l), 0, n-1), written from the statement",
     "new labels are of the axis' kind (int/float interchangeable)",
 ]
-MANDATORY = ["new:repeated", "new:empty", "new:missing", "new:permuted", "as:axis", "as:array", "fill:str", "fill:-1", "fill:nan-into-int",
+MANDATORY = ["new:float-for-int", "new:repeated", "new:empty", "new:missing", "new:permuted", "as:axis", "as:array", "fill:str", "fill:-1", "fill:nan-into-int",
              "raise_error:raised", "method:left", "method:right", "source:shuf", "axis:not-first", "like", "identity"]
 
 
@@ -60,6 +60,10 @@ def new_labels(draw, labs):
             new = list(draw(st.permutations(list(dict.fromkeys(new)))))
     if kind == "f" and draw(st.integers(0, 4)) == 0:
         new = [int(x) if float(x) == int(x) else x for x in new]   # int-for-float
+    if kind == "i" and draw(st.integers(0, 3)) == 0:
+        # float-for-int: a finer grid over an integer axis (missing labels that are not integral)
+        extra = [x + 0.5 for x in draw(st.lists(st.sampled_from(labs), min_size=1, max_size=2, unique=True))]
+        new = list(draw(st.permutations([float(x) for x in new] + extra)))
     return new
 
 
@@ -198,6 +202,8 @@ def run_axis(case):
         cl.add("new:repeated")
     if not new:
         cl.add("new:empty")
+    if core.label_kind(labels[ax]) == "i" and any(isinstance(x, float) and x != int(x) for x in new):
+        cl.add("new:float-for-int")
     if any(missing):
         cl.add("new:missing")
     if set(canon_new) == set(canon_old) and canon_new != canon_old:
